@@ -203,7 +203,7 @@ func c07SkipOnExactHit(c *Ctx) {
 	var seek *ssa.Call
 	for _, call := range core.Calls(fn) {
 		ci, ok := call.Instr.(*ssa.Call)
-		if !ok || ci.Call.StaticCallee() == nil || !strings.Contains(strings.ToLower(ci.Call.StaticCallee().Name()), "seekts") {
+		if !ok || core.Callee(&ci.Call) == nil || !strings.Contains(strings.ToLower(core.Callee(&ci.Call).Name()), "seekts") {
 			continue
 		}
 		seek = ci
@@ -233,7 +233,7 @@ func c07SkipOnExactHit(c *Ctx) {
 		}
 		// the seek reports 'found' only for an exact hit: false on the too-late / seek-to-start path
 		if okGuard {
-			callee := seek.Call.StaticCallee()
+			callee := core.Callee(&seek.Call)
 			bad := false
 			for _, b := range callee.Blocks {
 				ret, ok := core.AsReturn(b.Instrs[len(b.Instrs)-1])
@@ -790,7 +790,7 @@ func c07RecordedImmutable(c *Ctx) {
 	}
 	for _, fn := range p.ModFnsIn("querylog") {
 		for _, call := range core.Calls(fn) {
-			if call.Common.IsInvoke() || call.Common.StaticCallee() != nil || len(call.Common.Args) != 1 {
+			if call.Common.IsInvoke() || core.Callee(call.Common) != nil || len(call.Common.Args) != 1 {
 				continue
 			}
 			if !strings.HasSuffix(core.TypeKey(call.Common.Value.Type()), "aghnet.IPMutFunc") {
